@@ -485,7 +485,11 @@ template <typename ITV> struct Engine {
     if (want.empty && !r.empty) { viol(key("flags", op, "nonempty-result-of-empty-set"), ctx(a, b, r)); return; }
     if (want_exact) {
       hx::checked(1); hx::count("exact_checks");
-      if (!same(want, r)) viol(key("exact", op, exact_class(a, opk == 4 ? a : b, want, r)), ctx(a, b, r) + " exact=" + show(want));
+      if (!same(want, r)) {
+        std::string c = exact_class(a, opk == 4 ? a : b, want, r);
+        if (opk == 3 && is_point(a) && a.lo.v == 0 && mem(b, Q(0))) c = "zero-dividend,divisor-contains-zero";
+        viol(key("exact", op, c), ctx(a, b, r) + " exact=" + show(want));
+      }
     }
   }
   // set operations by their definitions on sampled members; def(m) says whether m belongs to the defined set
@@ -628,7 +632,14 @@ template <typename ITV> struct Engine {
         std::string cls = std::string("rel") + RELN[rel];
         // enclosure against the true (strict) definition, exactness against the representable one
         check_set(op, cls, a, eb, r, from, [&](const Q& m) { return mem(a, m) && (uni ? forall_rel(m, rel, eb) : exists_rel(m, rel, eb)); }, false, want_encl);
-        if (!dead && ex) { hx::checked(1); hx::count("exact_checks"); if (!same(want, r)) viol(key("exact", op, cls + "," + exact_class(a, eb, want, r)), ctx(a, eb, r) + " exact=" + show(want)); }
+        if (!dead && ex) {
+          hx::checked(1); hx::count("exact_checks");
+          if (!same(want, r)) {
+            std::string c = exact_class(a, eb, want, r);
+            if (uni && rel == 5 && !is_point(eb)) c = "non-singleton-argument";
+            viol(key("exact", op, cls + "," + c), ctx(a, eb, r) + " exact=" + show(want));
+          }
+        }
       }
       else if (k < 770) {
         // ---------------- lower_extend / upper_extend, plain and with a constraint
